@@ -421,6 +421,39 @@ func main() {
 	var ri interface{ N() int } = *rc
 	println("recvcopy", f(), f(), ri.N(), ri.N())
 	println("cmpstale", eqs([2]UC{}, [2]UC{}), eqs(struct{ UC }{}, struct{ UC }{}), eqs(UC{}, UC{}))
+	var fo interface{ W() string } = FOS{}
+	println("fwdorder", fo.W(), FOS.W(FOS{}))
+	fp := &FPS{}
+	var fpi interface{ N() int } = fp
+	println("fwdptr", safeInt(func() int { return fpi.N() }), safeInt(func() int { return (*FPS).N(fp) }))
+}
+
+type FOA struct{}
+
+func (FOA) W() string { return "A" }
+
+type FOB struct{ FOA }
+type FOD struct{}
+
+func (FOD) W() string { return "D" }
+
+type FOS struct {
+	FOB
+	FOD
+}
+type FPT int
+
+func (r *FPT) N() int { *r++; return int(*r) }
+
+type FPS struct{ FPT }
+
+func safeInt(f func() int) (r int) {
+	defer func() {
+		if recover() != nil {
+			r = -1
+		}
+	}()
+	return f()
 }
 
 type RC struct{ c int }
@@ -449,16 +482,21 @@ WITNESS_FILES = {
 }
 
 
-XSIG = dict(recvcopy="value-receiver-not-copied-per-call", cmpstale="iface-eq-stale-comparable-flag")
+XSIG = dict(recvcopy="value-receiver-not-copied-per-call", cmpstale="iface-eq-stale-comparable-flag",
+            fwdorder="forwarder-field-order-instead-of-depth", fwdptr="forwarder-ptr-method-of-embedded-nonstruct")
 XWHAT = dict(
     recvcopy="a value-receiver method that modifies its receiver sees the modification of the previous call when called through a "
              "method value or an interface holding the struct (Go: every call gets a fresh copy): f := x.N; f(); f() prints 1 2",
+    fwdorder="type B struct{A}; type S struct{B; D} with A.M and D.M: a call through an interface (or S.M as method expression) runs A.M "
+             "(first embedded field that has the name) instead of D.M (the shallowest): synthesizeMethod is first-field-wins",
+    fwdptr="type T int; func (r *T) N(); type S struct{T}: x := &S{}; interface{N()}(x).N() and (*S).N(x) panic (TypeError): the synthesized "
+           "forwarder wraps the embedded non-struct value in T, whose prototype has no pointer-receiver methods",
     cmpstale="[2]U{} / struct{U}{} with U struct{f func()} compared through interfaces give true instead of the run-time panic: "
              "anonymous composite types read elem.comparable before the named element type was initialised")
 
 
 def witness_program(ctx, cur, SIG, WHAT):
-    SIG = dict(SIG, **XSIG); WHAT = dict(WHAT, **XWHAT); cur = dict(cur, recvcopy=None, cmpstale=None)
+    SIG = dict(SIG, **XSIG); WHAT = dict(WHAT, **XWHAT); cur = dict(cur, recvcopy=None, cmpstale=None, fwdorder=None, fwdptr=None)
     d = os.path.join(ctx.work, "witness")
     js, go = build_and_run(ctx, d, WITNESS_FILES)
     if js is None and go.startswith("INFRA"):
@@ -485,6 +523,69 @@ def witness_program(ctx, cur, SIG, WHAT):
     ctx.cov["compiled_witness_lines"] = {f: dict(gopherjs=seen[f][0], native=seen[f][1]) for f in seen}
 
 
+def name_depths(fam, t):
+    """name -> depth at which a field or method of that name first appears below type t (Go's levels)"""
+    cur, seen, out = [t["e"] if t["k"] == "ptr" else t], [], {}
+    for depth in range(len(fam["decls"]) + 2):
+        nxt = []
+        for et in cur:
+            if any(F.ident(et, x) for x in seen): continue
+            seen.append(et)
+            if et["k"] == "named":
+                for m in fam["decls"][et["d"]]["meths"]:
+                    out.setdefault(m["name"], depth)
+            u = F.under(fam, et)
+            if u["k"] == "struct":
+                for f in u["fs"]:
+                    out.setdefault(f["name"], depth)
+                    if f["emb"]:
+                        nxt.append(f["t"]["e"] if f["t"]["k"] == "ptr" else f["t"])
+            elif u["k"] == "iface":
+                for m in u["ms"]:
+                    out.setdefault(m["name"], depth)
+        cur = nxt
+    return out
+
+
+def forwarder_classes(fam):
+    """per declaration: does a synthesized forwarder of it (or of a type it embeds) fall into the two recorded forwarder
+    classes?  fwdorder: an earlier embedded field has a name deeper than a later field; fwdptr: a value-embedded
+    non-struct named type with pointer-receiver methods"""
+    decls = fam["decls"]
+    own = {}
+    for i, d in enumerate(decls):
+        fo = fp = False
+        if d["under"]["k"] == "struct":
+            embs = [f for f in d["under"]["fs"] if f["emb"]]
+            deps = [name_depths(fam, f["t"]) for f in embs]
+            for a in range(len(embs)):
+                for b in range(a + 1, len(embs)):
+                    for nm, da in deps[a].items():
+                        if nm in deps[b] and deps[b][nm] < da:
+                            fo = True
+            for f in embs:
+                if f["t"]["k"] == "named":
+                    e = decls[f["t"]["d"]]
+                    if e["under"]["k"] not in ("struct", "iface") and any(m["ptr"] for m in e["meths"]):
+                        fp = True
+        own[i] = (fo, fp)
+    def reach(i, seen):
+        res = [own[i]]
+        u = decls[i]["under"]
+        if u["k"] == "struct":
+            for f in u["fs"]:
+                if f["emb"]:
+                    j = f["t"]["e"]["d"] if f["t"]["k"] == "ptr" else f["t"]["d"]
+                    if j not in seen:
+                        res += reach(j, seen | {j})
+        return res
+    out = {}
+    for i in own:
+        rs = reach(i, {i})
+        out[i] = (any(x[0] for x in rs), any(x[1] for x in rs))
+    return out
+
+
 def compiled_families(ctx, cur, coq_eval, variants_for, attribute, SIG, WHAT):
     r = ctx.rng("compiled")
     n = 10 if ctx.quick else 80
@@ -495,6 +596,7 @@ def compiled_families(ctx, cur, coq_eval, variants_for, attribute, SIG, WHAT):
         return build_and_run(ctx, os.path.join(ctx.work, "cf%d" % i), progs[i][0])
     outs = C.parallel_map(one, range(n))
     cases, keep = [], []
+    specs_by_fam = {}
     stats = dict(programs=n, probe_lines=0, extra_lines=0, differing_probe_lines=0, differing_extra_lines=0, explained_by_model=0)
     vs1, unfixed = variants_for(cur, attribution=True)
     for i, (fam, (files, observable), (js, go)) in enumerate(zip(fams, progs, outs)):
@@ -507,6 +609,8 @@ def compiled_families(ctx, cur, coq_eval, variants_for, attribute, SIG, WHAT):
             continue
         ja, jx = parse_output(js, len(fam["probes"]))
         ga, gx = parse_output(go, len(fam["probes"]))
+        sp_ = F.spec_answers(fam)
+        specs_by_fam[i] = sp_
         stats["probe_lines"] += len(observable); stats["extra_lines"] += len(gx)
         cases.append(dict(fam=fam, variants=vs1, obs=ja, ref=ga))
         keep.append((i, ja, ga, jx, gx))
@@ -519,7 +623,8 @@ def compiled_families(ctx, cur, coq_eval, variants_for, attribute, SIG, WHAT):
             p = e[2][0]
             ctx.violation("spec-vs-native-go", "the Coq SPEC and native Go disagree on probe %s: Go %s" % (json.dumps(fam["probes"][p])[:80], json.dumps(ga[p])),
                           dict(rep, probe_index=p, native=ga[p]), concrete=False)
-        diffs = [k for k in range(len(ja)) if ga[k][0] != "skip" and (ja[k][0] == "skip" or not F.ans_eq(ja[k], ga[k]))]
+        sp_ = specs_by_fam[i]
+        diffs = [k for k in range(len(ja)) if ga[k][0] != "skip" and (ja[k][0] == "skip" or not F.ans_eq_loose(ja[k], ga[k], sp_[k]))]
         stats["differing_probe_lines"] += len(diffs)
         # a difference at a probe is explained when the model (which contains exactly the known, still unrepaired
         # classes) gives the run-time's answer there; the emission order of anonymous types is emulated, so for the
@@ -558,6 +663,7 @@ def compiled_families(ctx, cur, coq_eval, variants_for, attribute, SIG, WHAT):
                     out_[cur_].append(l_)
             return out_
         jb, gb = blocks(jx), blocks(gx)
+        fwd = forwarder_classes(fam)
         crashed = "[exit" in (outs[i][0] or "")
         xdiff = []
         for h in gb:
@@ -579,14 +685,21 @@ def compiled_families(ctx, cur, coq_eval, variants_for, attribute, SIG, WHAT):
                             out_.append("%s%s.%s %d" % (m_.group(1), m_.group(2), m_.group(3), cnt_[m_.group(2)]))
                         return out_
                     recv = norm(jb.get(h)) == norm(gb[h]) or (jb.get(h) or []) == nocopy(gb[h])
-                    xdiff.append(("%s -> %s" % (h, jb.get(h)), "%s -> %s" % (h, gb[h]), recv))
+                    kind_ = "recvcopy" if recv else False
+                    if not recv and w_[1] in ("call", "mval"):
+                        fo_, fp_ = fwd.get(int(w_[2]), (False, False))
+                        if fp_ and "panic" in (jb.get(h) or []):
+                            kind_ = "fwdptr"
+                        elif fo_:
+                            kind_ = "fwdorder"
+                    xdiff.append(("%s -> %s" % (h, jb.get(h)), "%s -> %s" % (h, gb[h]), kind_))
         for h in jb:
             if h not in gb:
                 w_ = h.split(" ")
                 idxs = [int(w_[2])] if w_[1] == "switch" else uidx(int(w_[2]))
                 if not any(i_ in affected for i_ in idxs):
                     xdiff.append(("%s -> %s" % (h, jb[h]), "(absent)", False))
-        xdiff = sorted(xdiff, key=lambda x_: x_[2])[:1]      # an unexplained difference first
+        xdiff = sorted(xdiff, key=lambda x_: bool(x_[2]))[:1]      # an unexplained difference first
         stale = [k for k in diffs if ja[k][0] == "eq" and ga[k][1] == "panic" and ja[k][1] != "panic"]
         if stale:
             nrep["cmpstale"] = nrep.get("cmpstale", 0) + 1
@@ -595,9 +708,10 @@ def compiled_families(ctx, cur, coq_eval, variants_for, attribute, SIG, WHAT):
                               dict(rep, probe_index=stale[0], gopherjs=ja[stale[0]], native=ga[stale[0]]))
             diffs = [k for k in diffs if k not in stale]
         if xdiff and xdiff[0][2]:
-            nrep["recvcopy"] = nrep.get("recvcopy", 0) + 1
-            if nrep["recvcopy"] <= 1:
-                ctx.violation(XSIG["recvcopy"], XWHAT["recvcopy"] + " [%s vs native %s]" % (xdiff[0][0][:120], xdiff[0][1][:120]), dict(rep))
+            kc = xdiff[0][2]
+            nrep[kc] = nrep.get(kc, 0) + 1
+            if nrep[kc] <= 1:
+                ctx.violation(XSIG[kc], XWHAT[kc] + " [%s vs native %s]" % (xdiff[0][0][:120], xdiff[0][1][:120]), dict(rep))
             xdiff = []
         if not diffs and not xdiff:
             stats["explained_by_model"] += 1
